@@ -660,8 +660,7 @@ def c17(d, run):
     if "PlainSumFits" not in pw["violated"]:
         raise d.ToolError("MetricsWrap_plain: the expected overflow of a plain sum (defect D13) was not found")
     run.notes["metrics_witness"] = "MetricsWrap_plain.cfg: a plain (non-wrapping) sum of the stripes overflows, as expected (D13)"
-    if _thorough(run):
-        _metrics_unbounded(d, run)
+    _metrics_unbounded(d, run)
     mc = d.tlc_mc("MC_Histogram.tla", "MC_Histogram.cfg", run.workdir, workers=2)
     run.add_mc(mc, "MC_Histogram (bounds 2,4,8; values on/around bounds; <= 6 updates / clears: count = sum of buckets, percentile rule)")
     if mc["violated"]:
